@@ -250,6 +250,7 @@ def impl_run(root: Path, hist):
     TS = e.TS
     root.mkdir(parents=True, exist_ok=True)
     ts = None
+    has_assoc = False
     recs = []
     big = any(o.get('big') for o in hist)
 
@@ -268,7 +269,7 @@ def impl_run(root: Path, hist):
             rec['out'] = ['OErr', 'ENoHandle']      # no store object to call (an earlier open was refused)
             recs.append(rec)
             continue
-        if ts is not None and k in ('create', 'create_mem', 'open_r', 'open_a', 'merge'):
+        if ts is not None and k in ('create', 'create_mem', 'open_r', 'open_a', 'merge', 'inject_assoc'):
             rec['out'] = ['OErr', 'EBusy']          # the histories keep one live handle (model restriction)
             recs.append(rec)
             continue
@@ -277,12 +278,30 @@ def impl_run(root: Path, hist):
                 p = real_path(root, o['p'])
                 p.parent.mkdir(parents=True, exist_ok=True)
                 ts = TS.create(base_file=p, cache_size_mb=cache_arg(o))
+                has_assoc = False
             elif k == 'create_mem':
                 ts = TS.create(cache_size_mb=e.cache_mb(cap_of(o)))
             elif k == 'open_r':
-                ts = TS.open(base_file=real_path(root, o['p']), cache_size_mb=cache_arg(o))
+                kw = {}
+                if o.get('assoc'):
+                    kw['associated_files'] = [real_path(root, q) for q in o['assoc']]
+                ts = TS.open(base_file=real_path(root, o['p']), cache_size_mb=cache_arg(o), **kw)
+                has_assoc = bool(o.get('assoc'))
+            elif k == 'inject_assoc':
+                # an associated store file: written by a create session whose (throw-away) base file lives outside
+                # the modelled directories; its records are atag = 1000 + tag
+                p = real_path(root, o['p'])
+                if p.exists():
+                    raise ValueError(f'{p} already exists')
+                p.parent.mkdir(parents=True, exist_ok=True)
+                aux = root / '_aux'
+                aux.mkdir(exist_ok=True)
+                with TS.create(base_file=aux / f'b{len(list(aux.iterdir()))}.nc', associated_files=[(p, [XFS])]) as tmp:
+                    for t_ in o['tags']:
+                        tmp.add(e.mk(t_, None, 1, 'ok'))
             elif k == 'open_a':
                 ts = TS.append(base_file=real_path(root, o['p']), cache_size_mb=cache_arg(o))
+                has_assoc = False
             elif k == 'add':
                 tr = e.mk(o['tag'], o.get('fid'), o.get('sig', 0), o.get('kind', 'ok'),
                           o.get('which', 'starting_mass'), 4000 if big else o.get('npts', 2))
@@ -291,7 +310,8 @@ def impl_run(root: Path, hist):
                 idx = ts.add(tr)
                 rec['out'] = ['OIdx', int(idx)]
             elif k == 'get':
-                rec['out'] = ['OItem', tag_of(ts[o['i']])]
+                tr = ts[o['i']]
+                rec['out'] = ['OItemA', tag_of(tr), [int(tr.atag)]] if has_assoc else ['OItem', tag_of(tr)]
             elif k == 'len':
                 rec['out'] = ['OLen', int(len(ts))]
             elif k == 'iter':
@@ -339,6 +359,7 @@ def impl_run(root: Path, hist):
             rec['out'] = ['OErr', err_of(ex)]
             if k in ('create', 'create_mem', 'open_r', 'open_a'):
                 ts = None
+                has_assoc = False
             if k == 'close' and ts is not None:
                 # as found, close() of a wedged store raises before releasing anything; release the files so
                 # that later operations of this history are not disturbed (the comparison stops here anyway)
@@ -372,6 +393,9 @@ def raw_tags(path: Path):
     e = Env.get()
     ds = e.nc4.Dataset(path, 'r')
     try:
+        if 'base' not in ds.groups:          # an associated store: its records are the atag values
+            v = ds.groups[XFS].variables['atag']
+            return [int(v[i]) for i in range(len(ds.dimensions['trajectory']))]
         v = ds.groups['base'].variables['fuel_flow']
         # (a record that was skipped over has empty pointwise arrays: -1)
         return [int(v[i][0]) if len(v[i]) else -1 for i in range(len(ds.dimensions['trajectory']))]
@@ -440,7 +464,7 @@ def coq_cap(c):
     return 'None' if c is None else f'(Some {int(c)})'
 
 
-def coq_op(o, rec=None, big=False):
+def coq_op(o, rec=None, big=False, assoc=None):
     k = o['op']
     if k == 'create':
         return f"Create {coq_path(o['p'])} {coq_cap(cap_of(o, big))}"
@@ -455,7 +479,11 @@ def coq_op(o, rec=None, big=False):
         return (f"Add (T ({int(o['tag'])}) {fid} ({int(o.get('sig', 0))}) ({0 if o.get('kind', 'ok') == 'ok' else 1}) "
                 f"{int(size_of_add(o, big))})")
     if k == 'get':
+        if assoc:
+            return f"GetA {int(o['i'])} [{'; '.join(coq_path(q) for q in assoc)}]"
         return f"Get {int(o['i'])}"
+    if k == 'inject_assoc':
+        return f"Inject {coq_path(o['p'])} [{'; '.join(f'({1000 + int(t)})%Z' for t in o['tags'])}]"
     if k == 'len':
         return 'Len'
     if k == 'iter':
@@ -481,8 +509,13 @@ def coq_history(hist, recs):
     """operations interleaved with the eviction choices the real LRU cache made"""
     ops = []
     big = any(o.get('big') for o in hist)
+    assoc = None
     for o, r in zip(hist, recs):
-        ops.append(coq_op(o, r, big))
+        if o['op'] in ('create', 'create_mem', 'open_r', 'open_a', 'close'):
+            assoc = None
+        if o['op'] == 'open_r' and o.get('assoc') and r['out'] == 'OUnit':
+            assoc = o['assoc']
+        ops.append(coq_op(o, r, big, assoc))
         if r['keys'] is not None and o['op'] != 'close':
             ops.append(f"Evict {coq_nats(r['keys'])}")
     return ops
@@ -500,6 +533,8 @@ def model_out(v):
             return ['OErr', str(v[1])]
         if h == 'OItems':
             return ['OItems', [int(x) for x in v[1]], None if v[2] is None else str(v[2])]
+        if h == 'OItemA':
+            return ['OItemA', int(v[1]), [int(x) for x in v[2]]]
     raise ValueError(f'model output {v!r}')
 
 
@@ -576,8 +611,14 @@ class Oracle:
             return ['Any']
         if h is None and k in ('add', 'get', 'len', 'iter', 'sync', 'close', 'get_flight'):
             return ['OErr', 'ENoHandle']
-        if h is not None and k in ('create', 'create_mem', 'open_r', 'open_a', 'merge'):
+        if h is not None and k in ('create', 'create_mem', 'open_r', 'open_a', 'merge', 'inject_assoc'):
             return ['OErr', 'EBusy']
+        if k == 'inject_assoc':
+            p = self.key(o['p'])
+            if p in self.files or p in self.merged:
+                return ['OErr', 'EExists']
+            self.files[p] = {'items': [(1000 + t, None) for t in o['tags']], 'sig': 2, 'ident': False}
+            return 'OUnit'
         if k == 'create':
             p = self.key(o['p'])
             if p in self.files or p in self.merged:
@@ -595,7 +636,8 @@ class Oracle:
                 if k == 'open_a':
                     return ['OErr', 'EMergedAppend']
                 self.h = dict(kind='merged', path=p, mode='read', n_open=len([x for q in self.merged[p] for x in q['items']]),
-                              adds=0, touched=False, rejected_missing=0, cap=cap_of(o, self.big))
+                              adds=0, touched=False, rejected_missing=0, cap=cap_of(o, self.big),
+                              assoc=[self.key(q) for q in o.get('assoc', [])])
                 return 'OUnit'
             if p not in self.files:
                 return ['OErr', 'EMissing']
@@ -651,6 +693,13 @@ class Oracle:
             return ['OIdx', n]
         if k == 'get':
             it = self.items()
+            if h.get('assoc'):
+                # data held in separately merged associated stores: the i-th record of each store's own concatenation
+                cols = [[x for part in self.merged[q] for x in part['items']] for q in h['assoc']]
+                if o['i'] < len(it) and all(o['i'] < len(c) for c in cols):
+                    h['touched'] = True
+                    return ['OItemA', it[o['i']][0], [c[o['i']][0] for c in cols]]
+                return ['OErr', 'EIndex']
             if o['i'] < len(it):
                 h['touched'] = True           # something is cached from now on
                 x = it[o['i']]
@@ -993,7 +1042,7 @@ def judge(chk: Check, hc, recs, view, mr, cfg, nontrivial, leftovers=True):
         if failed is None:
             so = [model_out(x) for x, (kind, _, _) in zip(spec_outs, ops_real) if kind == 'op']
             for o, w, sp in zip(hist, wants, so):
-                if isinstance(w, list) and w[0] in ('OItemAny', 'OItemsHoles', 'MergeMaybeCrash', 'Any', 'F6Wedged'):
+                if isinstance(w, list) and w[0] in ('OItemAny', 'OItemsHoles', 'MergeMaybeCrash', 'Any', 'F6Wedged', 'OItemA'):
                     continue
                 if sp != w:
                     chk.broken('oracle-vs-spec', f"{hc.get('name')}: {o}: Coq specification {sp!r}, Python reference {w!r}", hist)
@@ -1200,7 +1249,8 @@ class Gen:
                 if d is None and f == 'C08':
                     self.emit(self.valid_add(sig, ident))
                 elif d is None:
-                    o = self.valid_add(sig, ident)
+                    # the very first addition is rejected: with the identifier usage of the later ones, or the opposite
+                    o = self.valid_add(sig, ident if rng.random() < 0.5 else not ident)
                     o['kind'] = 'missing'
                     if rng.random() < 0.5:
                         o['which'] = 'total_fuel_mass'
@@ -1375,6 +1425,8 @@ def gen_history(rng, focus):
             else:
                 g.reopen(rng.randint(3, 14))
         return g.ops[: max(target, 5) + 12]
+    if focus == 'C09' and rng.random() < 0.3:
+        return assoc_split_history(rng)
     if focus == 'C09':
         k = rng.choice([1, 2, 2, 3, 3, 4, 5, 6])
         ident = rng.random() < 0.6
@@ -1553,6 +1605,7 @@ def assoc_merge_scenarios(chk: Check, rng, n):
         sizes = [rng.randint(1, 4) for _ in range(k)]
         ident = rng.random() < 0.6
         bases, assocs, expect, t = [], [], [], 1
+        rechunk = k > 1 and sum(sizes) > k and rng.random() < 0.5
         for i, sz in enumerate(sizes):
             bp, ap = root / f'b{i}.nc', root / f'a{i}.nc'
             with TS.create(base_file=bp, associated_files=[(ap, [XFS])], cache_size_mb=e.cache_mb(rng.choice([NB + 100, 2 * NB + 100, None]))) as ts:
@@ -1562,8 +1615,21 @@ def assoc_merge_scenarios(chk: Check, rng, n):
                     t += 1
             bases.append(bp)
             assocs.append(ap)
+        asizes = sizes
+        if rechunk:
+            # the same flights written again with another split over the files: these associated files are merged
+            asizes = split_of(rng, sum(sizes), k)
+            assocs, t2 = [], 1
+            for i, sz in enumerate(asizes):
+                bp2, ap2 = root / f'x{i}.nc', root / f'r{i}.nc'
+                with TS.create(base_file=bp2, associated_files=[(ap2, [XFS])]) as ts:
+                    for _ in range(sz):
+                        ts.add(e.mk(t2, (5000 - t2) if ident else None, 1, 'ok'))
+                        t2 += 1
+                assocs.append(ap2)
+            chk.count('assoc_merge_scenarios:different_split')
         mb, ma = root / 'mb.aeic-store', root / 'ma.aeic-store'
-        case = {'name': f'assoc:{j}', 'sizes': sizes, 'ident': ident}
+        case = {'name': f'assoc:{j}', 'sizes': sizes, 'assoc_sizes': asizes, 'ident': ident}
         chk.case(case, nontrivial=(k >= 2 and len(set(sizes)) > 1))
         chk.count('assoc_merge_scenarios')
         try:
@@ -1650,3 +1716,67 @@ def oversized_read_scenarios():
            dict(op='iter'), dict(op='close')]
     out.append({'name': 'read-item-larger-than-cache:merged', 'ops': ops})
     return out
+
+
+def rejected_first_add_scenarios():
+    """C10: the FIRST trajectory of a fresh store is rejected (required value missing) and uses flight ids the other
+    way round than the valid ones that follow: nothing of it may stick, not even the identification of the store"""
+    out = []
+    for kind in ('file', 'mem'):
+        for bad_has_id in (True, False):
+            for which in ('starting_mass', 'total_fuel_mass'):
+                ops = [dict(op='create', p=[0, 0, 0], cache=2) if kind == 'file' else dict(op='create_mem', cap=4)]
+                bad = A(tag=1, kind='missing', which=which)
+                if bad_has_id:
+                    bad['fid'] = 77
+                fid = (lambda t: None) if bad_has_id else (lambda t: 500 - t)
+                ops += [bad, dict(op='len'), A(tag=2, fid=fid(2)), A(tag=3, fid=fid(3)), dict(op='len'), dict(op='get', i=0),
+                        dict(op='get_flight', id=498), dict(op='iter'), dict(op='close')]
+                if kind == 'file':
+                    ops += [dict(op='open_a', p=[0, 0, 0], cache=1), A(tag=4, fid=fid(4)), dict(op='len'), dict(op='close'),
+                            dict(op='open_r', p=[0, 0, 0]), dict(op='iter'), dict(op='close')]
+                out.append({'name': f'rejected-first-add:{kind}:{"id" if bad_has_id else "noid"}:{which}', 'ops': ops})
+    return out
+
+
+def split_of(rng, total, k):
+    """a random composition of total into k positive parts"""
+    cuts = sorted(rng.sample(range(1, total), k - 1)) if k > 1 else []
+    return [b - a for a, b in zip([0] + cuts, cuts + [total])]
+
+
+def assoc_split_history(rng, base_sizes=None, assoc_sizes=None, ident=None):
+    """base stores and associated stores of the SAME flights, merged separately, the associated family split over its
+    files like the base family or differently; opened together and read at every seam of both splits"""
+    k = len(base_sizes) if base_sizes else rng.randint(1, 5)
+    if base_sizes is None:
+        base_sizes = [rng.randint(1, 4) for _ in range(k)]
+    total = sum(base_sizes)
+    if assoc_sizes is None:
+        assoc_sizes = list(base_sizes) if (rng.random() < 0.35 or total == k) else split_of(rng, total, k)
+    if ident is None:
+        ident = rng.random() < 0.6
+    ops, paths, t = make_stores(k, ident, sizes=base_sizes)
+    apaths, t2 = [], 1
+    for j, sz in enumerate(assoc_sizes):
+        p = [1, j, 0]
+        apaths.append(p)
+        ops.append(dict(op='inject_assoc', p=p, tags=list(range(t2, t2 + sz))))
+        t2 += sz
+    MB, MA = [0, 70, 1], [0, 71, 1]
+    ops += [dict(op='merge', out=MB, ins=paths), dict(op='merge', out=MA, ins=apaths),
+            dict(op='open_r', p=MB, assoc=[MA], cache=rng.choice([1, 2, None])), dict(op='len')]
+    edges = set()
+    for sizes in (base_sizes, assoc_sizes):
+        acc = 0
+        for sz in sizes:
+            edges |= {acc - 1, acc, acc + sz - 1}
+            acc += sz
+    idxs = sorted(i for i in edges | {total, total + 1} if i >= 0)
+    rng.shuffle(idxs)
+    ops += [dict(op='get', i=i) for i in idxs]
+    if ident:
+        ops += [dict(op='get_flight', id=1000 - 1), dict(op='get_flight', id=1000 - total), dict(op='get_flight', id=3)]
+    ops += [dict(op='iter'), dict(op='get', i=rng.randrange(total)), dict(op='close'),
+            dict(op='open_r', p=MB, cache=1), dict(op='get', i=0), dict(op='close')]
+    return ops
